@@ -23,7 +23,7 @@ RULE = ("models x every exactly identified plan with 1 or 2 (variable,date) targ
         "(from unplanned unit simulations) has condition number > 1e6 are excluded; distinct non-trivial = (model, plan, source, method)")
 MANIFEST_ENTRY = dict(level="exploration", design="DESIGN.md section 4 / C07",
     technique="bounded-exhaustive enumeration of all exactly identified plans with <= 2 targets/instruments over 3 dates on generated models; exactness, unchanged-input, re-simulation and inversion oracles",
-    text="For 7 (quick) / 10 (thorough) determinate generated models (with lags, leads, cross terms; one with log-variables) every exactly identified plan with 1 or 2 targets and instruments over dates 1..3 in unanticipated and in anticipated mode is simulated (first_order; stacked_time for all single-swap plans): every exogenized cell equals its input value, only endogenized shocks at endogenized dates differ from their inputs (all other shocks, initial conditions untouched), the planned path is reproduced by an ordinary simulation driven by the returned shocks (so it satisfies the equations in the sense of C01), a two-variant run with different targets per variant equals the two single-variant runs, and when the targets come from an ordinary simulation driven by shocks at the instrument cells the plan recovers those shocks and the whole path (asserted for unanticipated plans and for anticipated plans with a single information set).",
+    text="For 7 (quick) / 10 (thorough) determinate generated models (with lags, leads, cross terms; one with log-variables) every exactly identified plan with 1 or 2 targets and instruments over dates 1..3 in unanticipated and in anticipated mode is simulated (first_order; stacked_time for all single-swap plans): every exogenized cell equals its input value, only endogenized shocks at endogenized dates differ from their inputs (all other shocks - including a bystander anticipated shock kept in the input - and initial conditions untouched), the planned path is reproduced by an ordinary simulation driven by the returned shocks (so it satisfies the equations in the sense of C01), a two-variant run with different targets per variant equals the two single-variant runs, and when the targets come from an ordinary simulation driven by shocks at the instrument cells the plan recovers those shocks and the whole path (asserted for unanticipated plans and for anticipated plans with a single information set).",
     note="Trusted: the unplanned first-order simulator (C01) as the reference for re-simulation and impact matrices. Ill-conditioned plans (cond > 1e6) excluded by an oracle-side criterion and counted. stacked_time runs that report failure are counted, not gated.")
 ASSUMPTIONS = ["the unplanned first-order simulator is correct (C01)"]
 
@@ -54,7 +54,7 @@ def models(tier):
 
 def build(spec):
     with contextlib.redirect_stdout(io.StringIO()):
-        m = ir.Simultaneous.from_string(spec.source(), linear=not spec.log, flat=True)
+        m = ir.Simultaneous.from_string(spec.source(), linear=not spec.log, flat=spec.flat)
         m.assign(**spec.param_values())
         m.steady()
         m.solve()
@@ -142,6 +142,9 @@ def check_plan(spec, m, plan_desc, res, ctx, methods=("first_order",)):
         # background: a non-zero initial condition and a non-endogenized shock somewhere else
         j0 = 0
         db_in[spec.var(j0)][START - 1] = val(db_in, spec.var(j0), 0) * np.exp(0.2 * amp) if spec.log else val(db_in, spec.var(j0), 0) + 0.2
+        # a bystander: an anticipated shock that is known, not endogenized, and stays in the input (date 4 is never an
+        # instrument date, so the run keeps a single information set)
+        db_in["ant_" + spec.shk(spec.n - 1)][START + 3] = 0.3 * amp
         truth = None
         if source == "inversion":
             db_true = db_in.copy()
